@@ -172,6 +172,14 @@ pub fn nest_source(kind: usize, depth: usize, rng: &Rng, d: &Delims) -> String {
                 "{% set a = [x for x in y if x] %}{% continue %}", "{% for a in b %}{% endfor %}{% continue %}", "{% for a in b %}{% else %}{% break %}{% endfor %}",
                 "{% component C() %}{{ [x for x in y] }}{% continue %}{% endcomponent C %}", "{% for a in b %}{% component D() %}{% break %}{% endcomponent D %}{% endfor %}",
                 "{% for a in [x for x in y] %}{% endfor %}{% break %}", "{% filter upper %}{% continue %}{% endfilter %}", "{% block b %}{% break %}{% endblock %}",
+                // conditional expressions and keyword operators
+                "{{ a if b else c if d else e }}", "{{ a if b if c else d else e }}", "{{ a if b }}", "{{ if }}", "{{ else }}", "{{ a if else c }}", "{{ a if b else }}", "{{ x[a if b else c] }}", "{{ f | truncate(length=1 if a else 2) }}",
+                "{{ [a if b else c, d if e] }}", "{{ {\"k\": a if b else c} }}", "{{ not not a in b }}", "{{ a is not not b }}", "{{ a in }}", "{{ not }}", "{{ a and }}", "{{ or b }}", "{{ a.if }}", "{{ a.not }}", "{{ a.in }}", "{{ a not b }}",
+                "{{ a is }}", "{{ a is not }}", "{{ a not in }}", "{{ a if b else c | upper if d else e }}", "{{ (a if b) }}", "{{ a if (b else c) }}", "{% if a if b else c %}{% endif %}", "{% for x in a if b else c %}{% endfor %}", "{{ a if b else c if }}",
+                // map and array literals next to the delimiters
+                "{{ {\"a\": {\"b\": 1}} }}", "{{ {\"a\": {\"b\": 1} } }}", "{{{}}}", "{{ {\"a\": 1,} }}", "{{ {,} }}", "{{ {\"a\" 1} }}", "{{ {a: 1} }}", "{{ {1: 2, 1: 3} }}", "{{ {\"a\": } }}", "{{ [1,,2] }}", "{{ [,] }}", "{{ [1 2] }}",
+                "{{ [[[1]]] }}", "{{ [[1], [[2]]] }}", "{{ {\"a\":", "{{ {\"a\": 1,", "{{ {", "{{ [", "{{ [1,", "{{ {\"a\": [", "{{ {\"a\": {\"b\": {\"c\": {\"d\": {\"e\": 1}}}}} }}", "{{ {}}}", "{{ {} }}}", "{{ [{}] }}", "{{ {\"k\": []}[\"k\"] }}",
+                "{{ {1.5: 1, none: 2, [1]: 3} }}", "{{ {\"a\": 1}.a }}", "{{ [1, 2][0] }}", "{{ [1, 2,] }}", "{{ [...] }}", "{{ {...} }}", "{{ {...a,} }}",
                 // comments and raw blocks that look almost right
                 "{% raw x %}a{% endraw %}", "{% raw %}a", "{% raw %}a{% endraw x %}", "{%raw%}a{%endraw%}", "{%- raw-%}a{%-endraw-%}", "{# {% raw %} #}a{% endraw %}", "{% raw %}{# c #}{% endraw %}", "{{ \"{#\" }}", "{{ \"#}\" }}{# c #}",
                 "{# c", "{# c #", "{#", "{% raw %}{% raw %}{% endraw %}{% endraw %}", "{% raw %}{% endraw", "{% raw %}{%", "{% raw", "{# {# nested #} #}", "{#}", "{#{#}#}", "{% raw %}\u{e9}{% endraw %}\u{e9}",
